@@ -21,6 +21,8 @@ NOTES = {
  "C08-m3": "strengthened: restarts inside group histories",
  "C08-m4": "strengthened: the group addressed by name as well as by number",
  "C09-m3": "strengthened: the permission record in force (also 'none') must survive a restart",
+ "C13-m3": "strengthened: every read request over the binary protocol and over HTTP/JSON must give equal answers, group details equal to the members (was caught by C06/C08 only)",
+ "C13-m4": "strengthened: messages carrying every header kind with boundary-length keys and values, written and read over both transports",
  "C10-m4": "strengthened: an administrator changes another user's password, then a restart (journal replay must change that user's, not the issuer's); get_me made observable by granting read_servers",
  "C09-m4": "strengthened: requests after logout on the same connection must be unauthenticated",
  "C12-m2": "strengthened: producers poll from their own cursor right after each send (no-wait window)",
